@@ -231,8 +231,16 @@ def h_alias(n, m):
     def h(c):
         d, cols = tbl(c, n, m); snap = {k: list(v) for k, v in cols.items()}
         if m == 0: return
-        how = c.pick('via', ['copy', 'projection', 'call', 'relabel', 'slice'])
-        r = d.copy() if how == 'copy' else d[['a']] if how == 'projection' else d(k = 0) if how == 'call' else d.relabel(a = 'q') if how == 'relabel' else d[:]
+        from pyg_base import dictable
+        VIA = dict(copy = lambda: d.copy(), projection = lambda: d[['a']], call = lambda: d(k = 0), relabel = lambda: d.relabel(a = 'q'), slice = lambda: d[:])
+        # operations that have nothing to do (no such column, no renaming, no condition, every row kept) must still return a table of their own
+        VIA.update({'minus-absent': lambda: d - 'zz', 'minus-absent-list': lambda: d - ['zz'], 'minus-nothing': lambda: d - [], 'minus-last': lambda: d - list(cols)[-1] if m > 1 else d - 'zz',
+                    'and-all': lambda: d & list(cols), 'relabel-nothing': lambda: d.relabel(zz = 'q'), 'relabel-identity': lambda: d.relabel(a = 'a'), 'inc-nothing': lambda: d.inc(), 'exc-nothing': lambda: d.exc(),
+                    'inc-all-rows': lambda: d.inc(lambda a: True), 'plus-empty': lambda: d + dictable(), 'mask-all': lambda: d[[True] * n]})
+        how = c.pick('via', list(VIA))
+        r = VIA[how]()
+        c.check('derived-table-is-a-new-object', r is not d)
+        if not isinstance(r, dictable) or not len(r.keys()): return
         what = c.pick('change', ['setitem', 'delete', 'update'])
         k0 = list(r.keys())[0]
         if what == 'setitem': r[k0] = [5] * len(r)
